@@ -29,6 +29,7 @@ pub struct BigUint {
 }
 //@ end
 //@ include prelude/biguint_view.rs
+//@ include prelude/highbits.rs
 pub open spec fn p2(k: nat) -> nat { pow2(k) }
 impl vstd::std_specs::convert::FromSpecImpl<u64> for BigUint {
     open spec fn obeys_from_spec() -> bool { false }
@@ -55,6 +56,8 @@ impl ShrAssign<usize> for BigUint {
 }
 
 impl BigUint {
+//@ stub u_conv/to_f64
+//@ stub u_conv/to_f32
 //@ extract src/biguint.rs :: impl BigUint :: const ZERO rules=R9,R13 label=BigUint_ZERO
     exec const ZERO: Self /*+*/ensures Self::ZERO.data@.len() == 0 /*-*/{ BigUint { data: Vec::new() } }
 //@ end
@@ -157,6 +160,45 @@ impl BigInt {
             let x = BigUint::from_f64(n.neg())?;
             Some(Neg::neg(BigInt::from(x)))
         }
+    }
+//@ end
+}
+
+impl BigInt {
+    // contract-only re-homing of `impl ToPrimitive for BigInt :: to_f64 / to_f32`: the magnitude's float, negated for negative values
+//@ extract src/bigint/convert.rs :: impl ToPrimitive for BigInt :: fn to_f64 rules=R0,R56 props=C08 label=bigint_to_f64
+    fn to_f64(&self) -> /*+*/(r: /*-*/Option<MF64>/*+*/)/*-*/
+//+{
+        requires self.wfi()
+        ensures r is Some, ({
+            let m = if fexp(self.mag().dg()) > 1024 { finf64() } else { fmul64(fcast64(fmant(self.mag().dg())), fpow2_64(fexp(self.mag().dg()) as i32)) };
+            r.unwrap() == (if self.iv() < 0 { fneg64(m) } else { m })
+        }),
+//+}
+    {
+//+{
+        proof { lemma_sgn_mul(self.sign, self.data.v()); }
+//+}
+        let n = self.data.to_f64()?;
+        Some(if self.sign == Minus { n.negf() } else { n })
+    }
+//@ end
+
+//@ extract src/bigint/convert.rs :: impl ToPrimitive for BigInt :: fn to_f32 rules=R0,R56 props=C08 label=bigint_to_f32
+    fn to_f32(&self) -> /*+*/(r: /*-*/Option<MF32>/*+*/)/*-*/
+//+{
+        requires self.wfi()
+        ensures r is Some, ({
+            let m = if fexp(self.mag().dg()) > 128 { finf32() } else { fmul32(fcast32(fmant(self.mag().dg())), fpow2_32(fexp(self.mag().dg()) as i32)) };
+            r.unwrap() == (if self.iv() < 0 { fneg32(m) } else { m })
+        }),
+//+}
+    {
+//+{
+        proof { lemma_sgn_mul(self.sign, self.data.v()); }
+//+}
+        let n = self.data.to_f32()?;
+        Some(if self.sign == Minus { n.negf() } else { n })
     }
 //@ end
 }
